@@ -2,6 +2,7 @@ package sim
 
 import (
 	"context"
+	"net/http"
 	"os"
 	"errors"
 	"fmt"
@@ -251,6 +252,11 @@ func (w *World) StartNode(n int) {
 	gen := nd.Gen
 	w.S.Go(fmt.Sprintf("run%d", n), func() {
 		opts := []server.Options{server.WithConfig(nd.Cfg), server.WithTCPListener(nd.Ln)}
+		if w.Plan.Params["ws"] != "" {
+			addr := fmt.Sprintf("ws%d.%d", n, gen)
+			simnet.Register(addr, nd.WsLn)
+			opts = append(opts, server.WithWebsocketServer(&server.WsServer{Server: &http.Server{Addr: addr}, Path: "/"}))
+		}
 		if w.Setup == nil || !w.Setup.NoBaseHooks {
 			opts = append(opts, server.WithHook(w.baseHooks(n)))
 		}
